@@ -45,7 +45,7 @@ LEVEL_TEXT = ("Generated-input exploration of Stroh, IsotropicVolterraDislocatio
 TECHNIQUE = ("finite-difference compatibility and equilibrium with derived truncation/rounding bounds, Burgers circuit limit, "
              "own tensor rotation, Barnett-Lothe angular integral for the energy tensor, slip-plane traction identity, "
              "rotation covariance (metamorphic), Hirth-Lothe closed forms, linear convergence of Stroh to the isotropic limit")
-WALL = {'quick': 70, 'thorough': 600}
+WALL = {'quick': 64, 'thorough': 600}
 
 EPS = 2.220446049250313e-16
 STROH_REFUSALS = ('Stroh checks failed!', 'Solution not real: check elastic constants')
